@@ -19,6 +19,7 @@ func init() {
 	vpRegister("c01_legacy", vpH_c01_legacy)
 	vpRegister("c01_config", vpH_c01_config)
 	vpRegister("c01_inplace", vpH_c01_inplace)
+	vpRegister("c01_source", vpH_c01_source)
 }
 
 // The mandatory-field rule on its own: whatever the signed-field list looks
@@ -336,4 +337,51 @@ func vpH_c01_inplace() {
 		inner.Set("leaf", map[string]any{"a": v2})
 	}
 	vpAssert(Verify(ctx, sig, s, &CommandStepWithInvariants{CommandStep: step, RepositoryURL: "r"}) != nil, "content changed in place after signing (inside nested containers that were already marshalled once) is refused")
+}
+
+// Two short-form plugin sources name the same plugin only if they are the same
+// string: letter case, a name that already ends in the plugin suffix, dots and
+// refs are all significant. A signature made for one never verifies the other.
+func vpH_c01_source() {
+	ctx := context.Background()
+	mk := func() string {
+		name := vpStr(1, "abB.") + vpStrUpTo(1, "abB.-")
+		if w := vpStrConstOr("*plugin.go", ""); w != "" && vpBool() {
+			name += w
+		}
+		if vpBool() {
+			name = vpStr(1, "abB") + "/" + name
+		}
+		if vpBool() {
+			name += "#" + vpStr(1, "abB1")
+		}
+		return name
+	}
+	pairs := [][2]string{
+		{"thing", "thing-buildkite-plugin"}, {"o/thing#v1", "o/thing-buildkite-plugin#v1"},
+		{"Thing", "thing"}, {"o/t#Rel", "o/t#rel"}, {"O/t", "o/t"},
+		{"thing.js", "thing-js"}, {"a.b/t", "a-b/t"}, {"t#v1.0", "t#v1-0"},
+		{"t-", "t"}, {"o/t", "o/t/"}, {"buildkite-plugins/t", "Buildkite-Plugins/t"},
+	}
+	var s1, s2 string
+	if pick := vpInt(0, len(pairs)); pick < len(pairs) {
+		s1, s2 = pairs[pick][0], pairs[pick][1]
+		if vpBool() {
+			s1, s2 = s2, s1
+		}
+	} else {
+		s1, s2 = mk(), mk()
+	}
+	vpAssume(s1 != s2)
+	// both stay short forms: no further slashes, no scheme, no leading dot
+	vpAssume(!vpReMatch("[:@\\\\]|^[./]|/.*/", s1) && !vpReMatch("[:@\\\\]|^[./]|/.*/", s2))
+	signed := pipeline.CommandStep{Command: "c", Plugins: pipeline.Plugins{{Source: s1}}}
+	pres := pipeline.CommandStep{Command: "c", Plugins: pipeline.Plugins{{Source: s2}}}
+	f1, f2 := signed.Plugins[0].FullSource(), pres.Plugins[0].FullSource()
+	vpAssert(f1 != f2, "different short-form sources have different canonical sources")
+	k := vpSigSigner(1)
+	sig, err := Sign(ctx, k, &CommandStepWithInvariants{CommandStep: signed, RepositoryURL: "r"})
+	vpAssume(err == nil && sig != nil)
+	verr := Verify(ctx, sig, k, &CommandStepWithInvariants{CommandStep: pres, RepositoryURL: "r"})
+	vpAssert(verr != nil, "a signature made for one plugin source does not verify a step that names another")
 }
